@@ -1,2 +1,401 @@
-def r05_3(res, programs):
-    pass
+"""Finite decision tables (FDT rules) shared by C03, C10, C05, C18, C01, C02:
+   R03.1/R10.1 round_low_part of the six modes = definition; R03.2 Reverse pairing;
+   Add<Rounding> for IBig; R05.3 ordering dispatch; R18.1 is_simpler_than; sign algebra."""
+from fractions import Fraction
+import math
+
+from . import mir, fdt
+from .fdt import Big, Adt, Closure, ordering, sign_of
+from .mir import span_loc
+
+ROUNDING = ("NoOp", "AddOne", "SubOne")
+MODES = ("Zero", "Away", "Up", "Down", "HalfEven", "HalfAway")
+
+
+def _cmp(a, b):
+    return (a > b) - (a < b)
+
+
+def base_summaries():
+    S = {}
+    S["*::is_zero"] = lambda ev, a, fr: int(_v(a[0]) == 0)
+    S["*::is_one"] = lambda ev, a, fr: int(_v(a[0]) == 1)
+    S["dashu_int::ibig::IBig::sign"] = lambda ev, a, fr: sign_of(_v(a[0]))
+    S["*Signed for dashu_int::ibig::IBig>::sign"] = lambda ev, a, fr: sign_of(_v(a[0]))
+    S["dashu_base::sign::Signed::is_positive"] = lambda ev, a, fr: int(_v(a[0]) > 0)
+    S["dashu_base::sign::Signed::is_negative"] = lambda ev, a, fr: int(_v(a[0]) < 0)
+    S["*Signed>::is_positive"] = lambda ev, a, fr: int(_v(a[0]) > 0)
+    S["*Signed>::is_negative"] = lambda ev, a, fr: int(_v(a[0]) < 0)
+    S["*BitTest for dashu_int::ibig::IBig>::bit"] = lambda ev, a, fr: int((_v(a[0]) >> a[1]) & 1)
+    S["*BitTest for dashu_int::ubig::UBig>::bit"] = lambda ev, a, fr: int((_v(a[0]) >> a[1]) & 1)
+    for name, f in (("ge", lambda x, y: x >= y), ("gt", lambda x, y: x > y), ("le", lambda x, y: x <= y), ("lt", lambda x, y: x < y)):
+        S["*PartialOrd<&B> for &A>::" + name] = (lambda f: lambda ev, a, fr: _ord_call(ev, a, fr, f))(f)
+        S["core::cmp::PartialOrd::" + name] = (lambda f: lambda ev, a, fr: _ord_call(ev, a, fr, f))(f)
+    S["*PartialEq<&B> for &A>::eq"] = lambda ev, a, fr: int(a[0] == a[1])
+    S["*PartialEq<&B> for &A>::ne"] = lambda ev, a, fr: int(a[0] != a[1])
+    S["<dashu_base::sign::Sign as core::cmp::PartialEq>::eq"] = lambda ev, a, fr: int(a[0] == a[1])
+    S["<dashu_base::sign::Sign as core::cmp::PartialEq>::ne"] = lambda ev, a, fr: int(a[0] != a[1])
+    S["core::cmp::Ordering::is_le"] = lambda ev, a, fr: int(a[0].discr() <= 0)
+    S["core::cmp::Ordering::is_lt"] = lambda ev, a, fr: int(a[0].discr() < 0)
+    S["core::cmp::Ordering::is_ge"] = lambda ev, a, fr: int(a[0].discr() >= 0)
+    S["core::cmp::Ordering::is_gt"] = lambda ev, a, fr: int(a[0].discr() > 0)
+    S["core::cmp::Ordering::is_eq"] = lambda ev, a, fr: int(a[0].discr() == 0)
+    S["core::cmp::Ordering::reverse"] = lambda ev, a, fr: ordering(-a[0].discr())
+    S["core::cmp::Ordering::then"] = lambda ev, a, fr: a[0] if a[0].discr() != 0 else a[1]
+
+    def then_with(ev, a, fr):
+        if a[0].discr() != 0:
+            return a[0]
+        return ev.do_call("core::ops::function::FnOnce::call_once", {}, [a[1], ()], None)
+    S["core::cmp::Ordering::then_with"] = then_with
+
+    S["*Ord for dashu_int::ibig::IBig>::cmp"] = lambda ev, a, fr: ordering(_cmp(_v(a[0]), _v(a[1])))
+    S["*Ord for dashu_int::ubig::UBig>::cmp"] = lambda ev, a, fr: ordering(_cmp(_v(a[0]), _v(a[1])))
+    S["*PartialOrd for dashu_int::ibig::IBig>::partial_cmp"] = lambda ev, a, fr: Adt("core::option::Option", "Some", [ordering(_cmp(_v(a[0]), _v(a[1])))], 1)
+    S["*PartialOrd for dashu_int::ubig::UBig>::partial_cmp"] = lambda ev, a, fr: Adt("core::option::Option", "Some", [ordering(_cmp(_v(a[0]), _v(a[1])))], 1)
+    S["*AbsOrd for dashu_int::ibig::IBig>::abs_cmp"] = lambda ev, a, fr: ordering(_cmp(abs(_v(a[0])), abs(_v(a[1]))))
+    S["*as core::clone::Clone>::clone"] = lambda ev, a, fr: a[0]
+    return S
+
+
+def _v(x):
+    if isinstance(x, Big):
+        return x.v
+    if isinstance(x, (int, Fraction)):
+        return x
+    raise fdt.Undecided("numeric value of %r" % (x,))
+
+
+def _ord_call(ev, a, fr, f):
+    x, y = a[0], a[1]
+    if isinstance(x, Big) and isinstance(y, Big):
+        return int(f(x.v, y.v))
+    if isinstance(x, Adt) and isinstance(y, Adt) and x.adt == y.adt:
+        # ordering of an enum: needs the type's own PartialOrd (inlined by the caller) — here only
+        # derive-style (declaration order) is not assumed
+        raise fdt.Undecided("ordering of enum values %r %r" % (x, y))
+    if isinstance(x, int) and isinstance(y, int):
+        return int(f(x, y))
+    raise fdt.Undecided("ordering of %r %r" % (x, y))
+
+
+CONSTS = {"IBig::ZERO": Big(0), "IBig::ONE": Big(1), "IBig::NEG_ONE": Big(-1), "UBig::ZERO": Big(0, "UBig"), "UBig::ONE": Big(1, "UBig")}
+
+
+def rounding_of(n):
+    return Adt("dashu_float::round::Rounding", ROUNDING[{0: 0, 1: 1, -1: 2}[n]], (), {0: 0, 1: 1, -1: 2}[n])
+
+
+def oracle_round(mode, x):
+    """round the exact rational x to an integer under the mode (definition)"""
+    fl = math.floor(x)
+    ce = math.ceil(x)
+    if fl == ce:
+        return fl
+    if mode == "Zero":
+        return fl if x > 0 else ce
+    if mode == "Away":
+        return ce if x > 0 else fl
+    if mode == "Up":
+        return ce
+    if mode == "Down":
+        return fl
+    d = x - fl
+    if d < Fraction(1, 2):
+        return fl
+    if d > Fraction(1, 2):
+        return ce
+    if mode == "HalfEven":
+        return fl if fl % 2 == 0 else ce
+    if mode == "HalfAway":
+        return ce if x > 0 else fl
+    raise ValueError(mode)
+
+
+INT_CLASSES = {"neg-odd": (-3, -7), "neg-even": (-2, -8), "zero": (0, 0), "pos-even": (2, 6), "pos-odd": (3, 9)}
+LOW_MAG = {"Less": (Fraction(1, 4), Fraction(1, 3)), "Equal": (Fraction(1, 2), Fraction(1, 2)), "Greater": (Fraction(3, 4), Fraction(2, 3))}
+
+
+def round_low_part_table(P, mode):
+    """(code table, oracle table, undecided list) over 5 x 2 x 3 cells"""
+    path = "<dashu_float::round::mode::%s as dashu_float::round::Round>::round_low_part" % mode
+    fn = next((f for f in P.fns("dashu_float") if f["p"] == path), None)
+    if fn is None:
+        return None
+    S = base_summaries()
+    code, want = {}, {}
+    for cname, reps in INT_CLASSES.items():
+        for sgn in ("Positive", "Negative"):
+            for half, mags in LOW_MAG.items():
+                cell = (cname, sgn, half)
+                vals = set()
+                wants = set()
+                for rep, mag in zip(reps, mags):
+                    low = mag if sgn == "Positive" else -mag
+                    args = [Big(rep), sign_of(1 if sgn == "Positive" else -1), Closure(ordering({"Less": -1, "Equal": 0, "Greater": 1}[half]))]
+                    r = fdt.tabulate(P, fn, [(cell, args)], S, CONSTS)[cell]
+                    vals.add(repr(r))
+                    wants.add(repr(rounding_of(oracle_round(mode, Fraction(rep) + low) - rep)))
+                code[cell] = vals
+                want[cell] = wants
+    return fn, code, want
+
+
+def r03_1(res, programs, rid="R03.1"):
+    res.rule(rid, "round_low_part of each of the six modes returns, in every cell of integer class (5) x sign of the low part (2) x half test (3), the adjustment that the mode's definition prescribes (two representatives per class, exact rationals)")
+    for P in programs:
+        if "dashu_float" not in P.units:
+            continue
+        cfgname = P.name
+        for mode in MODES:
+            t = round_low_part_table(P, mode)
+            if t is None:
+                res.anchor(rid, cfgname, "round_low_part of mode " + mode)
+                continue
+            fn, code, want = t
+            for cell in sorted(code):
+                key = "%s cell %s" % (mode, "/".join(cell))
+                c, w = code[cell], want[cell]
+                if any("undecided" in x for x in c):
+                    res.anchor(rid, cfgname, "%s: evaluator undecided (%s)" % (key, sorted(c)[0][:120]))
+                elif c == w and len(c) == 1:
+                    res.ok(rid, cfgname, key, sample=dict(mode=mode, cell=list(cell), result=sorted(c)[0]))
+                else:
+                    res.fail(rid, cfgname, key,
+                             "mode %s, integer %s, low part %s with |low| %s 1/2: code returns %s, the definition requires %s"
+                             % (mode, cell[0], cell[1].lower(), {"Less": "<", "Equal": "=", "Greater": ">"}[cell[2]], sorted(c), sorted(w)), span_loc(fn["sp"]))
+
+
+def r03_2(res, programs, rid="R03.2"):
+    res.rule(rid, "Reverse pairing: the Reverse of a directed mode (Zero<->Away, Up<->Down) picks the opposite neighbour in every cell; the Reverse of a nearest mode is the mode itself")
+    allowed = {"Positive": {"Rounding::NoOp", "Rounding::AddOne"}, "Negative": {"Rounding::NoOp", "Rounding::SubOne"}}
+    for P in programs:
+        if "dashu_float" not in P.units:
+            continue
+        cfgname = P.name
+        rev = {}
+        for i in P.units["dashu_float"].impls:
+            if i.get("trait") == "dashu_float::round::Round":
+                for it in i["items"]:
+                    if it["n"] == "Reverse" and "ty" in it:
+                        rev[i["self"].rsplit("::", 1)[1]] = it["ty"].rsplit("::", 1)[1]
+        if len(rev) != 6:
+            res.anchor(rid, cfgname, "Reverse bindings of the six modes (found %s)" % rev)
+            continue
+        tabs = {}
+        for m in MODES:
+            t = round_low_part_table(P, m)
+            if t is None:
+                res.anchor(rid, cfgname, "table of " + m)
+                continue
+            tabs[m] = {cell: sorted(v)[0] for cell, v in t[1].items()}
+        for m in MODES:
+            r = rev[m]
+            key = "Reverse(%s) = %s" % (m, r)
+            if m not in tabs or r not in tabs:
+                continue
+            bad = []
+            if m.startswith("Half"):
+                if r != m:
+                    bad.append(("nearest mode must be its own Reverse", r))
+            else:
+                for (c, s, o), v in tabs[m].items():
+                    w = tabs[r].get((c, s, o))
+                    if v == w or v not in allowed[s] or w not in allowed[s]:
+                        bad.append((c, s, o, v, w))
+                if rev.get(r) != m:
+                    bad.append(("Reverse is not an involution", rev.get(r)))
+            if not bad:
+                res.ok(rid, cfgname, key, sample=dict(mode=m, reverse=r, cells=len(tabs[m])))
+            else:
+                res.fail(rid, cfgname, key, "type Reverse of mode %s is %s, which does not pick the opposite neighbour in every cell (e.g. %s)" % (m, r, bad[0]))
+
+
+def r_add_rounding(res, programs, rid="R03.1b"):
+    res.rule(rid, "Add<Rounding> for IBig / &IBig and AddAssign map NoOp -> +0, AddOne -> +1, SubOne -> -1")
+    S = base_summaries()
+    S["*Add for dashu_int::ibig::IBig>::add"] = lambda ev, a, fr: Big(_v(a[0]) + _v(a[1]))
+    S["*Sub for dashu_int::ibig::IBig>::sub"] = lambda ev, a, fr: Big(_v(a[0]) - _v(a[1]))
+    S["*Add<dashu_int::ibig::IBig> for &'l dashu_int::ibig::IBig>::add"] = lambda ev, a, fr: Big(_v(a[0]) + _v(a[1]))
+    S["*Sub<dashu_int::ibig::IBig> for &'l dashu_int::ibig::IBig>::sub"] = lambda ev, a, fr: Big(_v(a[0]) - _v(a[1]))
+    for P in programs:
+        if "dashu_float" not in P.units:
+            continue
+        cfgname = P.name
+        fns = [f for f in P.fns("dashu_float") if f.get("trait") == "core::ops::arith::Add<dashu_float::round::Rounding>" and f.get("name") == "add"]
+        if len(fns) < 2:
+            res.anchor(rid, cfgname, "Add<Rounding> impls (found %d)" % len(fns))
+            continue
+        for fn in fns:
+            for x in (-3, 0, 2):
+                for i, rn in enumerate(ROUNDING):
+                    cell = (x, rn)
+                    r = fdt.tabulate(P, fn, [(cell, [Big(x), Adt("dashu_float::round::Rounding", rn, (), i)])], S, CONSTS)[cell]
+                    want = Big(x + {"NoOp": 0, "AddOne": 1, "SubOne": -1}[rn])
+                    key = "%s (%d, %s)" % (fn["p"], x, rn)
+                    if isinstance(r, tuple) and r and r[0] == "undecided":
+                        res.anchor(rid, cfgname, key + ": " + r[1][:100])
+                    elif r == want:
+                        res.ok(rid, cfgname, key)
+                    else:
+                        res.fail(rid, cfgname, key, "%s: %d + Rounding::%s gives %r, expected %r" % (fn["p"], x, rn, r, want), span_loc(fn["sp"]))
+
+
+# ---- R18.1 -----------------------------------------------------------------------------------------
+
+def r18_1(res, programs, rid="R18.1"):
+    res.rule(rid, "RBig::is_simpler_than implements the documented lexicographic order: smaller denominator, then smaller numerator magnitude, then positive before negative (36 cells)")
+    for P in programs:
+        if "dashu_ratio" not in P.units:
+            continue
+        cfgname = P.name
+        fn = next((f for f in P.fns("dashu_ratio") if f["p"] == "dashu_ratio::simplify::<impl dashu_ratio::rbig::RBig>::is_simpler_than"), None)
+        if fn is None:
+            res.anchor(rid, cfgname, "fn is_simpler_than")
+            continue
+        S = base_summaries()
+
+        class Rat:
+            def __init__(self, n, d):
+                self.n, self.d = n, d
+
+            def __repr__(self):
+                return "%d/%d" % (self.n, self.d)
+        S["dashu_ratio::rbig::RBig::denominator"] = lambda ev, a, fr: Big(a[0].d, "UBig")
+        S["dashu_ratio::rbig::RBig::numerator"] = lambda ev, a, fr: Big(a[0].n)
+        S["*rbig::RBig>::sign"] = lambda ev, a, fr: sign_of(a[0].n)
+        S["dashu_ratio::sign::<impl dashu_ratio::rbig::RBig>::sign"] = lambda ev, a, fr: sign_of(a[0].n)
+        inline = {f["p"] for f in P.fns("dashu_base") if "for dashu_base::sign::Sign" in f.get("p", "") and ("PartialOrd" in f["p"] or "Ord" in f["p"])}
+        inline |= {"<dashu_base::sign::Sign as core::cmp::Ord>::cmp", "<dashu_base::sign::Sign as core::cmp::PartialOrd>::partial_cmp"}
+        # Sign ordering: evaluate through the type's own impl when it is hand-written, else derive order
+        sign_impls = [i for i in P.impls if i["self"] == "dashu_base::sign::Sign" and i.get("trait", "").startswith("core::cmp::PartialOrd")]
+        for name, f in (("gt", lambda x, y: x > y), ("lt", lambda x, y: x < y), ("ge", lambda x, y: x >= y), ("le", lambda x, y: x <= y)):
+            S["core::cmp::PartialOrd::" + name] = (lambda f: lambda ev, a, fr: _sign_ord(ev, P, a, f))(f)
+            S["<dashu_base::sign::Sign as core::cmp::PartialOrd>::" + name] = (lambda f: lambda ev, a, fr: _sign_ord(ev, P, a, f))(f)
+        cells = 0
+        diffs = []
+        und = None
+        for dl, (d1, d2) in (("den<", (2, 3)), ("den=", (3, 3)), ("den>", (5, 3))):
+            for nl, (n1, n2) in (("|num|<", (1, 2)), ("|num|=", (2, 2)), ("|num|>", (4, 2))):
+                for s1 in (1, -1):
+                    for s2 in (1, -1):
+                        a, b = Rat(s1 * n1, d1), Rat(s2 * n2, d2)
+                        cell = (dl, nl, "+" if s1 > 0 else "-", "+" if s2 > 0 else "-")
+                        r = fdt.tabulate(P, fn, [(cell, [a, b])], S, CONSTS, inline=inline)[cell]
+                        # documented order
+                        ka = (d1, abs(a.n), 0 if s1 > 0 else 1)
+                        kb = (d2, abs(b.n), 0 if s2 > 0 else 1)
+                        want = int(ka < kb)
+                        cells += 1
+                        if isinstance(r, tuple) and r and r[0] in ("undecided", "panic"):
+                            und = r
+                        elif int(r) != want:
+                            diffs.append((cell, int(r), want))
+        if und is not None:
+            res.anchor(rid, cfgname, "is_simpler_than: evaluator %s (%s)" % (und[0], und[1][:120]))
+            continue
+        key = "is_simpler_than = lexicographic(den, |num|, sign)"
+        if not diffs:
+            res.ok(rid, cfgname, key, sample=dict(cells=cells))
+        else:
+            res.fail(rid, cfgname, key,
+                     "RBig::is_simpler_than differs from the documented order (denominator, then |numerator|, then positive first) in %d of %d cells, e.g. %s -> code %s, documented %s: it is a conjunction of three comparisons, not a lexicographic order"
+                     % (len(diffs), cells, diffs[0][0], bool(diffs[0][1]), bool(diffs[0][2])), span_loc(fn["sp"]))
+
+
+def _sign_ord(ev, P, a, f):
+    x, y = a[0], a[1]
+    if isinstance(x, Adt) and x.adt == "dashu_base::sign::Sign":
+        # derive(PartialOrd) would order by declaration (Positive < Negative); a hand-written impl is
+        # inlined instead.  Find out which one the crate has.
+        impl = [i for i in P.impls if i["self"] == "dashu_base::sign::Sign" and i.get("trait", "") == "core::cmp::PartialOrd"]
+        fns = [g for g in P.fns("dashu_base") if g.get("self_ty") == "dashu_base::sign::Sign" and g.get("trait", "") in ("core::cmp::PartialOrd", "core::cmp::Ord") and g.get("name") in ("partial_cmp", "cmp")]
+        if not fns:
+            raise fdt.Undecided("Sign has no PartialOrd impl body")
+        g = next((h for h in fns if h["name"] == "partial_cmp"), fns[0])
+        sub = fdt.Evaluator(P, ev.summaries, ev.consts, inline={h["p"] for h in fns})
+        r = sub.call(g, [x, y])
+        if isinstance(r, Adt) and r.adt.endswith("Option"):
+            r = r.fields[0]
+        return int(f(r.discr(), 0))
+    return _ord_call(ev, a, None, f)
+
+
+# ---- R05.3 -----------------------------------------------------------------------------------------
+
+def r05_3(res, programs, rid="R05.3"):
+    res.rule(rid, "ordering dispatch tables: Ord for TypedReprRef (Small<Large shortcut), Ord for IBig over sign pairs, Sign algebra (Mul<Sign>, Neg, Ord) equal their definitions")
+    for P in programs:
+        if "dashu_int" not in P.units:
+            continue
+        cfgname = P.name
+        S = base_summaries()
+        # --- Ord for TypedReprRef
+        fn = next((f for f in P.fns("dashu_int") if f["p"] == "dashu_int::cmp::<impl core::cmp::Ord for dashu_int::repr::TypedReprRef<'a>>::cmp"), None)
+        if fn is None:
+            res.anchor(rid, cfgname, "Ord for TypedReprRef")
+        else:
+            S2 = dict(S)
+            S2["core::cmp::impls::<impl core::cmp::Ord for u128>::cmp"] = lambda ev, a, fr: ordering(_cmp(a[0], a[1]))
+            S2["core::cmp::impls::<impl core::cmp::Ord for u64>::cmp"] = lambda ev, a, fr: ordering(_cmp(a[0], a[1]))
+            S2["dashu_int::cmp::cmp_in_place"] = lambda ev, a, fr: ordering(_cmp(_v(a[0]), _v(a[1])))
+            T = "dashu_int::repr::TypedReprRef"
+            small = lambda v: Adt(T, "RefSmall", [v], 0)
+            large = lambda v: Adt(T, "RefLarge", [Big(v)], 1)
+            big1, big2 = 1 << 200, 1 << 300
+            cases = {("S", "S", "<"): (small(3), small(7)), ("S", "S", "="): (small(5), small(5)), ("S", "S", ">"): (small(9), small(2)),
+                     ("S", "L", "<"): (small(3), large(big1)), ("L", "S", ">"): (large(big1), small(3)),
+                     ("L", "L", "<"): (large(big1), large(big2)), ("L", "L", "="): (large(big1), large(big1)), ("L", "L", ">"): (large(big2), large(big1))}
+            for cell, (x, y) in cases.items():
+                r = fdt.tabulate(P, fn, [(cell, [x, y])], S2, CONSTS)[cell]
+                want = ordering({"<": -1, "=": 0, ">": 1}[cell[2]])
+                key = "TypedReprRef::cmp %s" % (cell,)
+                if isinstance(r, tuple) and r and r[0] == "undecided":
+                    res.anchor(rid, cfgname, key + ": " + r[1][:100])
+                elif r == want:
+                    res.ok(rid, cfgname, key)
+                else:
+                    res.fail(rid, cfgname, key, "Ord for TypedReprRef returns %r for %s (expected %r): the Small-vs-Large shortcut is only sound for canonical values" % (r, cell, want), span_loc(fn["sp"]))
+        # --- Ord for IBig
+        fn = next((f for f in P.fns("dashu_int") if f["p"] == "dashu_int::cmp::<impl core::cmp::Ord for dashu_int::ibig::IBig>::cmp"), None)
+        if fn is None:
+            res.anchor(rid, cfgname, "Ord for IBig")
+        else:
+            S3 = dict(S)
+            S3["dashu_int::ibig::IBig::as_sign_repr"] = lambda ev, a, fr: (sign_of(_v(a[0])), Big(abs(_v(a[0])), "mag"))
+            S3["dashu_int::cmp::<impl core::cmp::Ord for dashu_int::repr::TypedReprRef<'a>>::cmp"] = lambda ev, a, fr: ordering(_cmp(_v(a[0]), _v(a[1])))
+            for x in (-7, -2, 0, 3, 8):
+                for y in (-7, -2, 0, 3, 8):
+                    cell = (x, y)
+                    r = fdt.tabulate(P, fn, [(cell, [Big(x), Big(y)])], S3, CONSTS)[cell]
+                    want = ordering(_cmp(x, y))
+                    key = "IBig::cmp sign cell (%s, %s)" % ("-" if x < 0 else "+", "-" if y < 0 else "+") + " %d,%d" % (x, y)
+                    if isinstance(r, tuple) and r and r[0] == "undecided":
+                        res.anchor(rid, cfgname, key + ": " + r[1][:100])
+                    elif r == want:
+                        res.ok(rid, cfgname, key)
+                    else:
+                        res.fail(rid, cfgname, key, "Ord for IBig: cmp(%d, %d) dispatches to %r (expected %r)" % (x, y, r, want), span_loc(fn["sp"]))
+        # --- sign algebra in dashu_base
+        SIGN = "dashu_base::sign::Sign"
+        pos, neg = Adt(SIGN, "Positive", (), 0), Adt(SIGN, "Negative", (), 1)
+        val = {"Positive": 1, "Negative": -1}
+        f_mul = next((f for f in P.fns("dashu_base") if f["p"] == "<dashu_base::sign::Sign as core::ops::arith::Mul>::mul"), None)
+        f_neg = next((f for f in P.fns("dashu_base") if f["p"] == "<dashu_base::sign::Sign as core::ops::arith::Neg>::neg"), None)
+        if f_mul is None or f_neg is None:
+            res.anchor(rid, cfgname, "Mul/Neg for Sign")
+        else:
+            for a in (pos, neg):
+                r = fdt.tabulate(P, f_neg, [("n", [a])], S, CONSTS)["n"]
+                key = "-Sign::%s" % a.variant
+                if isinstance(r, Adt) and val[r.variant] == -val[a.variant]:
+                    res.ok(rid, cfgname, key)
+                else:
+                    res.fail(rid, cfgname, key, "Neg for Sign: -%s = %r" % (a.variant, r), span_loc(f_neg["sp"]))
+                for b in (pos, neg):
+                    r = fdt.tabulate(P, f_mul, [("m", [a, b])], S, CONSTS)["m"]
+                    key = "Sign::%s * Sign::%s" % (a.variant, b.variant)
+                    if isinstance(r, Adt) and val[r.variant] == val[a.variant] * val[b.variant]:
+                        res.ok(rid, cfgname, key)
+                    else:
+                        res.fail(rid, cfgname, key, "Mul for Sign: %s * %s = %r" % (a.variant, b.variant, r), span_loc(f_mul["sp"]))
